@@ -5,7 +5,7 @@
   * atomic actions = what happens between two schedule points of the code (critical sections under
     `r.mu`, the channel operations `close(doneCh)` / `select`): `start`, `cacheRead`, `enter`
     (keysFromRemote's critical section, incl. creating the inflight request and spawning `updateKeys`,
-    whose HTTP request is thereby sent), `wake` (the `select`), `cancel`, `rotate` (the environment
+    whose HTTP request is thereby sent), `wake` (the `select`), `cancel`, `expire` (the deadline of a call's context passes), `rotate` (the environment
     changes the served key set arbitrarily), `respond` (the endpoint answers the download: any status, any body) and
     `upd` (the next block of `updateKeys` after the download).
   * the SHAPE of the two functions that share state (`keysFromRemote`, `updateKeys`) is a parameter
@@ -51,11 +51,25 @@ end Hand
 
 namespace Jwks
 
-/-- which context `go r.updateKeys(…)` receives -/
+/-- which context `go r.updateKeys(…)` receives: what of the STARTING caller's context can end the shared download -/
 inductive CtxKind
-  | caller      -- the first caller's `ctx`: its cancellation aborts the shared download
-  | detached    -- `context.WithoutCancel(ctx)` / `context.Background()`
+  | caller         -- the first caller's `ctx`: its cancellation AND its deadline abort the shared download
+  | detached       -- `context.WithoutCancel(ctx)` / `context.Background()`: no cancellation, no deadline (only values are kept)
+  | deadlineOnly   -- the starter's cancellation is dropped but its DEADLINE is kept (e.g. `context.WithDeadline(context.WithoutCancel(ctx), d)`
+                   -- with `d, _ := ctx.Deadline()`): the shared download ends when the starter's deadline passes. factgen never emits this
+                   -- value (any context expression other than the two above is UNSUPPORTED); it exists so that the sensitivity theorem
+                   -- `jwks_deadline_isolation_needs_no_deadline` can say what would go wrong.
   deriving DecidableEq, Repr, Inhabited
+
+/-- the download is aborted when the starter's context is cancelled -/
+def CtxKind.keepsCancel : CtxKind → Bool
+  | .caller => true
+  | _ => false
+
+/-- the download is aborted when the starter's deadline passes -/
+def CtxKind.keepsDeadline : CtxKind → Bool
+  | .detached => false
+  | _ => true
 
 /-- operations of `updateKeys` after `fetchRemoteKeys` returned -/
 inductive UOp
@@ -213,7 +227,8 @@ inductive Pc
 
 structure Caller where
   tok : JWS := default
-  live : Bool := true          -- context not cancelled
+  live : Bool := true          -- own context live: not cancelled and not past its deadline
+  expired : Bool := false      -- the deadline of its context has passed
   pc : Pc := .idle
   deriving DecidableEq, Repr, Inhabited
 
@@ -240,6 +255,7 @@ inductive Act
   | enter (c : Cid)
   | wake (c : Cid) (viaCtx : Bool)     -- the `select`: `viaCtx` picks `<-ctx.Done()`, otherwise `<-inflight.wait()`
   | cancel (c : Cid)
+  | expire (c : Cid)                   -- the deadline of the context of call `c` passes (any call may carry a deadline)
   | rotate (ks : List ServedKey)
   | respond (f : Fid) (a : Answer)     -- the endpoint answers download `f`
   | upd (f : Fid)                      -- `updateKeys` of request `f` runs its next block
@@ -348,7 +364,8 @@ def exec (F : Facts) (L : Logic) (cfg : JwksSet) (s : State) : Act → Option (S
       if s.crashed then none else
       let create := !F.guardNil || s.inflight.isNone
       let f := s.nf
-      let aborted := F.spawnCtx == .caller && !(s.callers c).live
+      -- a download created under a context that has already ended (as far as the download's context follows it) returns at once
+      let aborted := (F.spawnCtx == .caller && !(s.callers c).live) || (F.spawnCtx == .deadlineOnly && (s.callers c).expired)
       let s1 : State :=
         if create then
           { s with nf := f + 1,
@@ -393,6 +410,15 @@ def exec (F : Facts) (L : Logic) (cfg : JwksSet) (s : State) : Act → Option (S
       let (s3, o3) := afterResults F s2 fs
       some (s3, [Obs.cancel c] ++ fs.map (fun f => Obs.fetchEnd f none) ++ o3)
     else some (s1, [.cancel c])
+  | .expire c =>
+    if s.crashed || (s.callers c).pc == .idle then none else
+    let s1 := { s with callers := upd s.callers c { s.callers c with live := false, expired := true } }
+    if F.spawnCtx.keepsDeadline then
+      let fs := abortedList s c
+      let s2 := { s1 with fetches := abortOwned s c }
+      let (s3, o3) := afterResults F s2 fs
+      some (s3, [Obs.expire c] ++ fs.map (fun f => Obs.fetchEnd f none) ++ o3)
+    else some (s1, [.expire c])
   | .rotate ks => if s.crashed then none else some ({ s with served := ks }, [.rotate ks])
   | .respond f a =>
     if s.crashed || !(decide (f < s.nf)) || (s.fetches f).res != none then none else
